@@ -19,6 +19,7 @@ the Go code dereferences a sub-object has an explicit `crash` outcome here; the
 list of those places (`sites`) has to cover `Generated.ShapesClient.derefs`.
 -/
 import SigModel.Generated.ShapesClient
+import SigModel.Model.ShapesMedia
 
 namespace SigModel.ShapesClient
 
@@ -200,6 +201,10 @@ structure Facts where
   validateBeforeDispatch : Bool
   preHelloOnlyHello : Bool
   messageCounterLabelFromFixedSet : Bool
+  /-- The media code behind the handlers (Janus client, proxy MCU client, media proxy) contains no
+  single-value type assertion, index expression, write to a possibly-nil map or unguarded dereference
+  besides the reviewed ones (`Model/ShapesMedia.lean`). -/
+  mediaTablesReviewed : Bool
 
 def Facts.current : Facts :=
   { validation := Generated.ShapesClient.validation,
@@ -212,7 +217,12 @@ def Facts.current : Facts :=
     binaryFrameAnsweredInvalidFormat := Generated.ShapesClient.binaryFrameAnsweredInvalidFormat,
     validateBeforeDispatch := Generated.ShapesClient.validateBeforeDispatch && Generated.ShapesClient.decodeBeforeUse,
     preHelloOnlyHello := Generated.ShapesClient.preHelloOnlyHello,
-    messageCounterLabelFromFixedSet := Generated.ShapesClient.messageCounterLabelFromFixedSet }
+    messageCounterLabelFromFixedSet := Generated.ShapesClient.messageCounterLabelFromFixedSet,
+    mediaTablesReviewed :=
+      Generated.ShapesMedia.mediaTypeAssertions == ShapesMedia.reviewedTypeAssertions &&
+      Generated.ShapesMedia.mediaIndexExprs == ShapesMedia.reviewedIndexExprs &&
+      Generated.ShapesMedia.mediaMapWrites == ShapesMedia.reviewedMapWrites &&
+      Generated.ShapesMedia.mediaDerefs == ShapesMedia.reviewedDerefs }
 
 /-! ## Validation (`CheckValid`), defined over the regenerated table -/
 
@@ -535,6 +545,14 @@ def withAmbient (o : Obs) : Obs := if s.seesRoom then { o with sMay := o.sMay ++
 def mcuObs (rc : Recipient) : Obs :=
   { sMay := mcuReplies ++ ambient, bMay := if rc.rtype = "session" ∧ rc.sid = .by then ["message"] else [], st := .any }
 
+/-- The message is handed to the media code (`McuClient.SendMessage` of a publisher / subscriber and
+everything behind it).  Its payload is a `map[string]interface{}` with members of any JSON type; that
+code runs in goroutines nobody recovers.  It is not modelled statement by statement: it is safe as long
+as every expression of it that can panic on a value of the wrong dynamic type is a reviewed one. -/
+def mediaCode (rc : Recipient) : Outcome :=
+  if F.mediaTablesReviewed then .ok (mcuObs rc) st
+  else .crash "media code: a type assertion / index expression / map write / dereference that is not a reviewed one"
+
 /-- `MessageClientMessageData.CheckValid` on the payload. -/
 def checkData (d : DataShape) : V :=
   if d.roomType = .invalid then invalid
@@ -559,8 +577,8 @@ def modelMessage (m : ClientMessage) : Outcome :=
       | .err c => .ok (withAmbient s (errObs c)) st
       | .crash site => .crash site
       | .ok =>
-        if rc.rtype = "session" ∧ mcuTypes.contains mm.data.dtype then .ok (mcuObs rc) st
-        else if mm.data.dtype = "sendoffer" then .ok (mcuObs rc) st
+        if rc.rtype = "session" ∧ mcuTypes.contains mm.data.dtype then mediaCode F st rc
+        else if mm.data.dtype = "sendoffer" then mediaCode F st rc
         else .ok (withAmbient s (route s (fwdKind "message" mm.dataValid) rc hasVirt)) st
     else .ok (withAmbient s (route s (fwdKind "message" mm.dataValid) rc hasVirt)) st
 
@@ -731,7 +749,7 @@ def handlerFor (t : String) : String :=
 def dispatchSession (st : St) (s : Sess) (m : ClientMessage) : Outcome :=
   let h := handlerFor F m.mtype
   if h = "processRoom" then modelRoom st s m
-  else if h = "processMessageMsg" then modelMessage st s m
+  else if h = "processMessageMsg" then modelMessage F st s m
   else if h = "processControlMsg" then modelControl st s m
   else if h = "processInternalMsg" then modelInternal F st s m
   else if h = "processTransientMsg" then modelTransient st s m
